@@ -60,6 +60,11 @@ pub struct Plan {
     pub fsync_err: Option<i32>,
     /// errno returned by rename()/ftruncate()/unlink() while armed (hard fault)
     pub meta_err: Option<i32>,
+    /// crash: the process is killed (`_exit`) right before its k-th tracked system call
+    /// (opens for writing, writes, closes, syncs, renames/links/truncates). Only ever armed in a
+    /// forked child, so that only what reached the file system survives.
+    #[serde(default, skip_serializing_if = "Option::is_none")]
+    pub kill_at: Option<u32>,
 }
 
 impl Plan {
@@ -88,6 +93,9 @@ pub struct Delivered {
     pub close_err: u32,
     pub fsync_err: u32,
     pub meta_err: u32,
+    /// tracked system calls seen so far (the clock of `kill_at`)
+    #[serde(default)]
+    pub ticks: u32,
     /// compact log of tracked calls, e.g. "open#0=3 write#0(5000)=100 write#1(4900)=ENOSPC"
     pub log: Vec<String>,
 }
@@ -118,9 +126,9 @@ struct World {
 thread_local! {
     static WORLD: RefCell<World> = const { RefCell::new(World {
         armed: false,
-        plan: Plan { open: Vec::new(), write: Vec::new(), disk_full_at: None, max_chunk: None, close_err: None, fsync_err: None, meta_err: None },
+        plan: Plan { open: Vec::new(), write: Vec::new(), disk_full_at: None, max_chunk: None, close_err: None, fsync_err: None, meta_err: None, kill_at: None },
         fds: Vec::new(),
-        d: Delivered { opens: 0, writes: 0, closes: 0, fsyncs: 0, metas: 0, bytes_accepted: 0, open_eintr: 0, open_hard: 0, write_short: 0, write_eintr: 0, write_hard: 0, write_zero: 0, disk_full_short: 0, disk_full_err: 0, dribble_short: 0, close_err: 0, fsync_err: 0, meta_err: 0, log: Vec::new() },
+        d: Delivered { opens: 0, writes: 0, closes: 0, fsyncs: 0, metas: 0, bytes_accepted: 0, open_eintr: 0, open_hard: 0, write_short: 0, write_eintr: 0, write_hard: 0, write_zero: 0, disk_full_short: 0, disk_full_err: 0, dribble_short: 0, close_err: 0, fsync_err: 0, meta_err: 0, ticks: 0, log: Vec::new() },
     }) };
 }
 
@@ -222,6 +230,16 @@ fn with_armed<R>(f: impl FnOnce(&mut World) -> R) -> Option<R> {
         .flatten()
 }
 
+/// One tick of the crash clock: called once per tracked system call, before it takes effect.
+fn tick(w: &mut World) {
+    let n = w.d.ticks;
+    w.d.ticks += 1;
+    if w.plan.kill_at == Some(n) {
+        // the simulated crash: nothing after this instant happens, nothing before it is undone
+        unsafe { libc::_exit(137) }
+    }
+}
+
 fn wants_write(flags: c_int) -> bool {
     let acc = flags & libc::O_ACCMODE;
     acc == libc::O_WRONLY || acc == libc::O_RDWR || (flags & libc::O_CREAT) != 0
@@ -239,6 +257,7 @@ unsafe fn do_open(dirfd: c_int, path: *const c_char, flags: c_int, mode: c_uint)
     }
     sys_point("sys:open");
     let dec = with_armed(|w| {
+        tick(w);
         let idx = w.d.opens;
         w.d.opens += 1;
         let fault = w.plan.open.iter().find(|(i, _)| *i == idx).map(|(_, f)| f.clone());
@@ -361,6 +380,7 @@ fn decide_write(fd: c_int, n: usize) -> Option<Decision<usize>> {
         if !w.fds.contains(&fd) {
             return None;
         }
+        tick(w);
         let idx = w.d.writes;
         w.d.writes += 1;
         if n == 0 {
@@ -551,6 +571,7 @@ pub unsafe extern "C" fn close(fd: c_int) -> c_int {
     }
     let fault = with_armed(|w| {
         if let Some(pos) = w.fds.iter().position(|&f| f == fd) {
+            tick(w);
             w.fds.swap_remove(pos);
             w.d.closes += 1;
             if let Some(e) = w.plan.close_err {
@@ -574,6 +595,7 @@ pub unsafe extern "C" fn close(fd: c_int) -> c_int {
 unsafe fn sync_common(fd: c_int, nr: c_long) -> c_int {
     let fault = with_armed(|w| {
         if w.fds.contains(&fd) {
+            tick(w);
             w.d.fsyncs += 1;
             if let Some(e) = w.plan.fsync_err {
                 w.d.fsync_err += 1;
@@ -604,6 +626,7 @@ pub unsafe extern "C" fn fdatasync(fd: c_int) -> c_int {
 fn meta_fault(what: &str) -> Option<c_int> {
     sys_point("sys:rename_or_truncate");
     with_armed(|w| {
+        tick(w);
         w.d.metas += 1;
         if let Some(e) = w.plan.meta_err {
             w.d.meta_err += 1;
@@ -657,6 +680,218 @@ pub unsafe extern "C" fn ftruncate64(fd: c_int, len: off_t) -> c_int {
 #[no_mangle]
 pub unsafe extern "C" fn ftruncate(fd: c_int, len: off_t) -> c_int {
     ftruncate64(fd, len)
+}
+
+#[no_mangle]
+pub unsafe extern "C" fn renameat2(odfd: c_int, old: *const c_char, ndfd: c_int, new: *const c_char, flags: c_uint) -> c_int {
+    if let Some(e) = meta_fault("renameat2") {
+        set_errno(e);
+        return -1;
+    }
+    libc::syscall(libc::SYS_renameat2, odfd as c_long, old, ndfd as c_long, new, flags as c_long) as c_int
+}
+
+#[no_mangle]
+pub unsafe extern "C" fn link(old: *const c_char, new: *const c_char) -> c_int {
+    if let Some(e) = meta_fault("link") {
+        set_errno(e);
+        return -1;
+    }
+    libc::syscall(libc::SYS_linkat, libc::AT_FDCWD as c_long, old, libc::AT_FDCWD as c_long, new, 0 as c_long) as c_int
+}
+
+#[no_mangle]
+pub unsafe extern "C" fn linkat(odfd: c_int, old: *const c_char, ndfd: c_int, new: *const c_char, flags: c_int) -> c_int {
+    if let Some(e) = meta_fault("linkat") {
+        set_errno(e);
+        return -1;
+    }
+    libc::syscall(libc::SYS_linkat, odfd as c_long, old, ndfd as c_long, new, flags as c_long) as c_int
+}
+
+#[no_mangle]
+pub unsafe extern "C" fn symlink(target: *const c_char, linkpath: *const c_char) -> c_int {
+    if let Some(e) = meta_fault("symlink") {
+        set_errno(e);
+        return -1;
+    }
+    libc::syscall(libc::SYS_symlinkat, target, libc::AT_FDCWD as c_long, linkpath) as c_int
+}
+
+/// unlink is a scheduling point and a crash point, but never fails by injection: a rollback that
+/// cannot remove its debris is still entitled to report the original error.
+#[no_mangle]
+pub unsafe extern "C" fn unlink(path: *const c_char) -> c_int {
+    sys_point("sys:unlink");
+    with_armed(|w| {
+        tick(w);
+        w.d.metas += 1;
+        w.d.log.push("unlink=pass".into());
+    });
+    libc::syscall(libc::SYS_unlinkat, libc::AT_FDCWD as c_long, path, 0 as c_long) as c_int
+}
+
+#[no_mangle]
+pub unsafe extern "C" fn unlinkat(dirfd: c_int, path: *const c_char, flags: c_int) -> c_int {
+    sys_point("sys:unlink");
+    with_armed(|w| {
+        tick(w);
+        w.d.metas += 1;
+        w.d.log.push("unlinkat=pass".into());
+    });
+    libc::syscall(libc::SYS_unlinkat, dirfd as c_long, path, flags as c_long) as c_int
+}
+
+/// Preallocation is where a full device is reported first by implementations that reserve space.
+unsafe fn fallocate_common(fd: c_int, mode: c_int, offset: off_t, len: off_t, posix: bool) -> c_int {
+    if tracked(fd) {
+        let full = with_armed(|w| {
+            tick(w);
+            w.d.metas += 1;
+            let full = match w.plan.disk_full_at {
+                Some(limit) => (offset as u64).saturating_add(len as u64) > limit,
+                None => false,
+            };
+            if full {
+                w.d.disk_full_err += 1;
+                w.d.log.push(format!("fallocate({})=ENOSPC", len));
+            } else if let Some(e) = w.plan.meta_err {
+                w.d.meta_err += 1;
+                w.d.log.push(format!("fallocate({})={}", len, errno_name(e)));
+                return Some(e);
+            }
+            if full { Some(libc::ENOSPC) } else { None }
+        })
+        .flatten();
+        if let Some(e) = full {
+            if posix {
+                return e;
+            }
+            set_errno(e);
+            return -1;
+        }
+    }
+    let r = libc::syscall(libc::SYS_fallocate, fd as c_long, mode as c_long, offset, len) as c_int;
+    if posix && r != 0 {
+        return *libc::__errno_location();
+    }
+    r
+}
+
+#[no_mangle]
+pub unsafe extern "C" fn fallocate(fd: c_int, mode: c_int, offset: off_t, len: off_t) -> c_int {
+    fallocate_common(fd, mode, offset, len, false)
+}
+
+#[no_mangle]
+pub unsafe extern "C" fn fallocate64(fd: c_int, mode: c_int, offset: off_t, len: off_t) -> c_int {
+    fallocate_common(fd, mode, offset, len, false)
+}
+
+#[no_mangle]
+pub unsafe extern "C" fn posix_fallocate(fd: c_int, offset: off_t, len: off_t) -> c_int {
+    fallocate_common(fd, 0, offset, len, true)
+}
+
+#[no_mangle]
+pub unsafe extern "C" fn posix_fallocate64(fd: c_int, offset: off_t, len: off_t) -> c_int {
+    fallocate_common(fd, 0, offset, len, true)
+}
+
+/// In-kernel copies (`std::fs::copy`, `std::io::copy` between files): write-like on the output descriptor.
+#[no_mangle]
+pub unsafe extern "C" fn copy_file_range(fd_in: c_int, off_in: *mut off_t, fd_out: c_int, off_out: *mut off_t, len: size_t, flags: c_uint) -> ssize_t {
+    if tracked(fd_out) {
+        sys_point("sys:write");
+    }
+    let real = |n: size_t| libc::syscall(libc::SYS_copy_file_range, fd_in as c_long, off_in, fd_out as c_long, off_out, n, flags as c_long) as ssize_t;
+    match decide_write(fd_out, len) {
+        None => real(len),
+        Some(Decision::Fail(e)) => {
+            set_errno(e);
+            -1
+        }
+        Some(Decision::Return(v)) => v,
+        Some(Decision::Pass(m)) => {
+            let r = real(m);
+            let saved = *libc::__errno_location();
+            note_accepted(r);
+            set_errno(saved);
+            r
+        }
+    }
+}
+
+unsafe fn sendfile_common(out_fd: c_int, in_fd: c_int, offset: *mut off_t, count: size_t) -> ssize_t {
+    if tracked(out_fd) {
+        sys_point("sys:write");
+    }
+    let real = |n: size_t| libc::syscall(libc::SYS_sendfile, out_fd as c_long, in_fd as c_long, offset, n) as ssize_t;
+    match decide_write(out_fd, count) {
+        None => real(count),
+        Some(Decision::Fail(e)) => {
+            set_errno(e);
+            -1
+        }
+        Some(Decision::Return(v)) => v,
+        Some(Decision::Pass(m)) => {
+            let r = real(m);
+            let saved = *libc::__errno_location();
+            note_accepted(r);
+            set_errno(saved);
+            r
+        }
+    }
+}
+
+#[no_mangle]
+pub unsafe extern "C" fn sendfile(out_fd: c_int, in_fd: c_int, offset: *mut off_t, count: size_t) -> ssize_t {
+    sendfile_common(out_fd, in_fd, offset, count)
+}
+
+#[no_mangle]
+pub unsafe extern "C" fn sendfile64(out_fd: c_int, in_fd: c_int, offset: *mut off_t, count: size_t) -> ssize_t {
+    sendfile_common(out_fd, in_fd, offset, count)
+}
+
+#[no_mangle]
+pub unsafe extern "C" fn pwritev(fd: c_int, iov: *const iovec, iovcnt: c_int, offset: off_t) -> ssize_t {
+    // rare: handled as "first vector only" when a fault or a length limit applies
+    let mut total: usize = 0;
+    if !iov.is_null() && iovcnt > 0 {
+        for i in 0..iovcnt as usize {
+            total = total.saturating_add((*iov.add(i)).iov_len);
+        }
+    }
+    match decide_write(fd, total) {
+        None => libc::syscall(libc::SYS_pwritev, fd as c_long, iov, iovcnt as c_long, offset, 0 as c_long) as ssize_t,
+        Some(Decision::Fail(e)) => {
+            set_errno(e);
+            -1
+        }
+        Some(Decision::Return(v)) => v,
+        Some(Decision::Pass(m)) => {
+            if m == total {
+                let r = libc::syscall(libc::SYS_pwritev, fd as c_long, iov, iovcnt as c_long, offset, 0 as c_long) as ssize_t;
+                let saved = *libc::__errno_location();
+                note_accepted(r);
+                set_errno(saved);
+                return r;
+            }
+            let v = &*iov;
+            let k = v.iov_len.min(m);
+            let r = libc::syscall(libc::SYS_pwrite64, fd as c_long, v.iov_base, k, offset) as ssize_t;
+            let saved = *libc::__errno_location();
+            note_accepted(r);
+            set_errno(saved);
+            r
+        }
+    }
+}
+
+#[no_mangle]
+pub unsafe extern "C" fn pwritev64(fd: c_int, iov: *const iovec, iovcnt: c_int, offset: off_t) -> ssize_t {
+    pwritev(fd, iov, iovcnt, offset)
 }
 
 /// Self-test used at start-up: proves that std's file API really arrives at
